@@ -64,8 +64,8 @@ def abbreviate(case):
     return {"method": sp["method"], "T": sp["T"], "t0": sp["t0"], "free": case["free"], "objective": sp["objective"][:1], "rng": case["rng"]}
 
 
-def raw_quantities(B, dc):
-    pr = obs.stage_probes(B, "main", dc=dc, intg=not dc)
+def raw_quantities(B, dc, sname="main"):
+    pr = obs.stage_probes(B, sname, dc=dc, intg=not dc)
     raw = {}
     for k, v in pr.items():
         key = k.split("|", 1)[1]
